@@ -237,7 +237,8 @@ fn opt_lists(tier: Tier) -> Vec<Vec<(String, String)>> {
 pub fn cell(spec: &Value) -> Value {
     let cfg = SrvCfg::from_json(&spec["srv"]);
     let mut c = Counters::default();
-    let srv = match server_for(&cfg) {
+    // single-port servers keep state across requests (listener buffer size, routing table): give every cell its own
+    let srv = match if cfg.single { server_fresh(&cfg) } else { server_for(&cfg) } {
         Ok(s) => s,
         Err(e) => return json!({"machinery_error": format!("server start: {e}")}),
     };
